@@ -907,7 +907,7 @@ impl ParserListener for Screen {
     ///
     /// - `count`: Number of lines to insert.
     fn insert_lines(&mut self, count: Option<u32>) {
-        let count = count.unwrap_or(1);
+        let count = count.filter(|&c| c != 0).unwrap_or(1);
         let Margins { top, bottom } = self
             .margins
             .unwrap_or(Margins { top: 0, bottom: self.lines - 1 });
@@ -935,7 +935,7 @@ impl ParserListener for Screen {
     }
 
     fn delete_lines(&mut self, count: Option<u32>) {
-        let count = count.unwrap_or(1);
+        let count = count.filter(|&c| c != 0).unwrap_or(1);
         let Margins { top, bottom } = self
             .margins
             .unwrap_or(Margins { top: 0, bottom: self.lines - 1 });
